@@ -564,8 +564,7 @@ def gen_cond(part, tgt, quick=False):
                     for c in conds:
                         pairs = [(va, vb) for va in nz(ta, tgt) for vb in nz(tb, tgt)]
                         for va, vb in (pairs[:1] + pairs[-1:] if quick else pairs):
-                            if True:
-                                yield mkcase('cond', cell, ('cond', ('val', tc_, c), ('val', ta, va), ('val', tb, vb)), tgt, 'cond', tcl)
+                            yield mkcase('cond', cell, ('cond', ('val', tc_, c), ('val', ta, va), ('val', tb, vb)), tgt, 'cond', tcl)
     elif part == 'float':
         for tc_ in (M.FLOAT, M.DOUBLE):
             for c in (0.0, -0.0, 0.5, -1.5, M.f32(1e-30)):
@@ -789,6 +788,8 @@ def _job(spec):
             continue
         c.i = len(cases)
         cases.append(c)
+    if stratum == 'depth2' and spec[4] == 2:
+        targets = targets[:1]      # quick tier: depth 2 on x86_64 and aarch64 only (riscv64 folds the same values as aarch64)
     mism, stats = run_cases(cases, tgt, targets, full)
     stats['pruned'] = pruned
     stats['cases'] = len(cases)
@@ -990,7 +991,8 @@ def main(chk):
     for spec, stats, r, c, v, s, sample in fs.pimap(_job, jobs):
         done += 1
         st = strata.setdefault(spec[0], {'cases': 0, 'transitions': 0, 'disagreements': 0, 'cpu_s': 0.0})
-        st['cases'] += stats['cases'] * len(CLASSES[spec[-1]])
+        ntg = 1 if (spec[0] == 'depth2' and spec[4] == 2) else len(CLASSES[spec[-1]])
+        st['cases'] += stats['cases'] * ntg
         st['transitions'] += stats['transitions']
         st['disagreements'] += stats['disagreements']
         st['cpu_s'] = round(st['cpu_s'] + stats['cpu_s'], 1)
@@ -998,7 +1000,7 @@ def main(chk):
             capped[k] = capped.get(k, 0) + x
         for k in tot:
             tot[k] += stats.get(k, 0)
-        tot['cases'] += stats['cases'] * (len(CLASSES[spec[-1]]) - 1)
+        tot['cases'] += stats['cases'] * (ntg - 1)
         for k, x in stats['ctx'].items():
             ctxs[k] = ctxs.get(k, 0) + x
         cells |= c
@@ -1161,7 +1163,14 @@ def main(chk):
         'values: V(T) of DESIGN.md section 5 (quick: first 5 per type, thorough: all); depth 2 over {int, unsigned, long, unsigned long, double, char}',
         'oracle D (run-time evaluation of the same expression) is exercised by the C01 check, not here',
         'long double is documented unsupported and excluded; character constants belong to C14',
-        'witnesses run with -std=gnu11 without -pedantic-errors because floating comparisons in _Static_assert and binary literals are extensions there',
+        'witnesses judge R\'s value and type through a file-scope array bound (clang refuses floating operands in _Static_assert) with -std=gnu11; '
+        'whether a construct is a constraint violation is asked with -std=c11 -pedantic-errors unless the unit uses an extension (binary literal, enum EL)',
+        'the _Static_assert context compares floating values too, which relies on cproc (like gcc) folding floating operands there; strictly that is not an '
+        'integer constant expression',
+        'contexts beyond static initialiser / _Static_assert / _Generic type run on x86_64 for every case and on aarch64 for the cases that mention plain char '
+        '(the only type whose values differ between the targets); riscv64 gets the first three contexts',
+        'per (job, family) at most 25 disagreeing cases are replayed alone and put to the witnesses; the rest of the family is counted under '
+        'same_family_cases_not_individually_consulted and not reported',
     ])
 
 
